@@ -68,6 +68,13 @@ def _esc(s):
     return "".join(out)
 
 
+def strict_json(text):
+    """RFC 8259 parse: Python's extensions (NaN, Infinity) are refused"""
+    def _no(c):
+        raise ValueError("not JSON: " + c)
+    return json.loads(text, parse_constant=_no)
+
+
 def _dump(v):
     if isinstance(v, str):
         return _esc(v)
